@@ -73,6 +73,11 @@ def space(tier, seed):
     for grp in (None, [F('a', 1)]):
         qs.append(('str', {'items': [A('MIN', 'l', D), A('MAX', 'l', D), A('MIN', 'U', D), A('MAX', 'C', D), A('COUNT', 'U', D)], 'where': None, 'group': grp}))
         qs.append(('str', {'items': [A('MAX', 'l', D), A('ANY_VALUE', 'l', D)], 'where': wheres[1], 'group': grp}))
+    # ARRAY_AGG with its documented callback argument (applied to the aggregated list of each group)
+    for cb in ('sorted_top2', 'count', 'joined'):
+        for grp in (None, [F('a', 1)]):
+            qs.append(('str', {'items': ([F('a', 1)] if grp else []) + [('agg', 'ARRAY_AGG', 'U', F('a', 3), cb), ('agg', 'COUNT', 'U', ('star', None))], 'where': None, 'group': grp}))
+    qs.append(('str', {'items': [('agg', 'ARRAY_AGG', 'l', F('a', 3), 'joined'), ('agg', 'ARRAY_AGG', 'U', F('a', 1), 'sorted_top2'), ('agg', 'ARRAY_AGG', 'U', F('a', 3))], 'where': wheres[1], 'group': [F('a', 1)]}))
     # scale probe: one group of 15..20 distinct values (even and odd sizes: the two middle elements differ)
     for kind in ('MEDIAN', 'AVG', 'VARIANCE', 'MIN', 'MAX', 'SUM', 'COUNT', 'ARRAY_AGG'):
         qs.append(('biggroup', {'items': [A(kind, 'U', F('a', 3))], 'where': None, 'group': None}))
